@@ -309,3 +309,15 @@ def c09_empty_marker_appears(w, v):
     diffs = w.get('all_differences') or []
     return bool(diffs) and len(diffs) == w.get('n_keys') and all(
         a == '"<absent>"' and b == '"#EMPTY"' for _k, a, b in diffs)
+
+
+@matcher('c10_unselected_cycle_range_member')
+def c10_unselected_cycle_range_member(w, v):
+    """A cell whose only cycle closes through a non-selected IF/IFS/IFERROR
+    branch is still marked #CIRC! when the cell is also a member of a range
+    that is read inside another (active) cycle: solve_circular refuses to cut
+    a cycle whose cell is fed by a range assembler linked to an active cycle."""
+    return v['sig'].startswith('unselected-cycle-not-resolved:#CIRC!->') and \
+        v['sig'].endswith(':range-member') and \
+        bool(w.get('member_of_range_read_inside_another_cycle')) and \
+        w.get('observed') == '#CIRC!'
